@@ -6,6 +6,7 @@ import (
 	"go/token"
 	"go/types"
 	"golang.org/x/tools/go/cfg"
+	"sort"
 	"strings"
 )
 
@@ -127,7 +128,7 @@ func runC17(c *Ctx) {
 		ast.Inspect(fd.Body, func(n ast.Node) bool {
 			if as, ok := n.(*ast.AssignStmt); ok && len(as.Lhs) == 1 && len(as.Rhs) == 1 {
 				if cl, ok := ast.Unparen(as.Rhs[0]).(*ast.CallExpr); ok && selectorCall(info, cl, "", "set") {
-					old = exprKey(as.Lhs[0])
+					old = rawKey(as.Lhs[0])
 				}
 			}
 			return true
@@ -136,7 +137,20 @@ func runC17(c *Ctx) {
 	}
 	setNew, setOld := counterNames("Set")
 	updDelta, _ := counterNames("Update")
-	isOld := func(k string) bool { return k == setOld || strings.HasSuffix(k, ".set("+setNew+")") }
+	recvNameOf := func(method string) string {
+		if fd := p.FuncDecl(pkg, "Counter", method); fd != nil {
+			if ro := recvObj(info, fd); ro != nil {
+				return ro.Name()
+			}
+		}
+		return "?"
+	}
+	setRecv := recvNameOf("Set")
+	// the old value: the variable the change helper's result was stored in, that call itself, or -
+	// fully resolved - the read of the value field inside the critical section before the store
+	isOld := func(k string) bool {
+		return (setOld != "" && k == setOld) || strings.HasSuffix(k, ".set("+setNew+")") || k == setRecv+".value"
+	}
 	// lessThan(rel, a, b): rel says a < b (directly, or through a difference compared with zero / one)
 	splitDiff := func(k string) (string, string, bool) {
 		if !strings.HasPrefix(k, "(") || !strings.HasSuffix(k, ")") {
@@ -198,9 +212,7 @@ func runC17(c *Ctx) {
 			r.Unresolved("cond/wake-obligation", key, "method not found")
 			continue
 		}
-		f.CallsOpaque = true // the old value is "what set() returned", not the field it read
 		edges := f.RelEdgesAt(row.rel)
-		f.CallsOpaque = false
 		if len(edges) == 0 {
 			r.Fail("cond/wake-obligation", key, f.P.posStr(f.Body.Pos()), "the direction of the change is not tested: waiters of this direction are never woken")
 			continue
@@ -222,18 +234,42 @@ func runC17(c *Ctx) {
 		if !bad {
 			r.Pass("cond/wake-obligation", key, f.P.posStr(f.Body.Pos()), row.cond+".Broadcast on every path of that edge")
 		}
-		// the change precedes the direction test
-		calls := f.Calls(func(c *ast.CallExpr) bool {
-			return selectorCall(info, c, "", strings.ToLower(row.method[:1])+row.method[1:])
-		})
-		if len(calls) != 1 {
-			r.Fail("cond/wake-obligation", key+" (change first)", f.P.posStr(f.Body.Pos()), "the locked helper that changes the value is not called exactly once")
+		// the change - the one store into the value field, in this method or a helper spliced into
+		// it - precedes every direction test
+		isStore := func(n ast.Node) bool {
+			as, ok := n.(*ast.AssignStmt)
+			if !ok {
+				return false
+			}
+			for _, l := range as.Lhs {
+				if fieldSel(info, l, "value") {
+					return true
+				}
+			}
+			return false
+		}
+		stores := f.Find(isStore)
+		if len(stores) != 1 {
+			r.Fail("cond/wake-obligation", key+" (change first)", f.P.posStr(f.Body.Pos()), fmt.Sprintf("expected exactly one store into the value field on behalf of %s, found %d", row.method, len(stores)))
+		} else {
+			for _, e := range edges {
+				cpt := Point{e.From, len(e.From.Nodes) - 1}
+				// a path to the direction test that does not pass the critical section of the change
+				if _, found := f.PathFromEntryAvoiding(cpt, func(n ast.Node) bool {
+					c, ok := n.(*ast.CallExpr)
+					if !ok {
+						return false
+					}
+					op, path := lockOp(info, c)
+					return op == "Lock" && strings.HasSuffix(path, ".valueMutex")
+				}, nil); found {
+					r.Fail("cond/wake-obligation", key+" (change first)", f.P.posStr(f.Body.Pos()), "the direction of the change is tested before the critical section that changes the value")
+				}
+			}
 		}
 	}
 	// who changes Counter.value: only set/update; who calls them: only Set/Update
-	checkWhoWrites(r, p, pkg, "Counter", "value", []string{"set", "update"})
-	checkWhoCalls(r, p, pkg, "Counter", "set", []string{"Set"})
-	checkWhoCalls(r, p, pkg, "Counter", "update", []string{"Update"})
+	checkWritesOnBehalfOf(r, p, pkg, "Counter", "value", []string{"Set", "Update"})
 	// Stack
 	isListMut := func(name string) func(ast.Node) bool {
 		return func(n ast.Node) bool {
@@ -775,5 +811,89 @@ func checkDAGMutex(r *Reporter, p *Prog) {
 		} else {
 			r.Pass("dag/consumer-count", pkg+".DAGMutex.unregisterMutex decrement", f.P.posStr(f.Body.Pos()), "count-1 on every normal path of the not-last branch")
 		}
+	}
+}
+
+// checkWritesOnBehalfOf: every function that stores into typ.field is one of the root methods, or an
+// unexported method of typ that is (transitively) called only by them - so the wake-up obligations
+// attached to the roots cover every change of the field.
+func checkWritesOnBehalfOf(r *Reporter, p *Prog, pkg, typ, field string, roots []string) {
+	info := p.Pkg(pkg).TypesInfo
+	isRoot := map[string]bool{}
+	for _, a := range roots {
+		isRoot[a] = true
+	}
+	writers := map[*ast.FuncDecl][]string{}
+	callers := map[*types.Func][]*ast.FuncDecl{}
+	declOfFn := map[*types.Func]*ast.FuncDecl{}
+	for _, fd := range p.AllFuncDecls(pkg) {
+		if fd.Body == nil || strings.HasSuffix(p.Fset.Position(fd.Pos()).Filename, "_test.go") {
+			continue
+		}
+		if fn, _ := info.Defs[fd.Name].(*types.Func); fn != nil {
+			declOfFn[fn] = fd
+		}
+		ast.Inspect(fd.Body, func(nd ast.Node) bool {
+			switch x := nd.(type) {
+			case *ast.AssignStmt:
+				for _, l := range x.Lhs {
+					if se, ok := ast.Unparen(l).(*ast.SelectorExpr); ok && fieldSel(info, l, field) && shortTypeName(typeName(info.TypeOf(se.X))) == typ {
+						writers[fd] = append(writers[fd], p.posStr(l.Pos()))
+					}
+				}
+			case *ast.IncDecStmt:
+				if se, ok := ast.Unparen(x.X).(*ast.SelectorExpr); ok && fieldSel(info, x.X, field) && shortTypeName(typeName(info.TypeOf(se.X))) == typ {
+					writers[fd] = append(writers[fd], p.posStr(x.X.Pos()))
+				}
+			case *ast.CallExpr:
+				if fn := staticCallee(info, x); fn != nil {
+					callers[fn.Origin()] = append(callers[fn.Origin()], fd)
+				}
+			case *ast.SelectorExpr:
+				// a method value counts as a use by this function
+				if fn, _ := info.Uses[x.Sel].(*types.Func); fn != nil {
+					callers[fn.Origin()] = append(callers[fn.Origin()], fd)
+				}
+			}
+			return true
+		})
+	}
+	key := fmt.Sprintf("%s.%s.%s written only on behalf of %v", pkg, typ, field, roots)
+	var bad []string
+	var onBehalf func(fd *ast.FuncDecl, seen map[*ast.FuncDecl]bool) bool
+	onBehalf = func(fd *ast.FuncDecl, seen map[*ast.FuncDecl]bool) bool {
+		if recvTypeName(fd) == typ && isRoot[fd.Name.Name] {
+			return true
+		}
+		if seen[fd] || recvTypeName(fd) != typ || fd.Name.IsExported() {
+			return false
+		}
+		seen[fd] = true
+		fn, _ := info.Defs[fd.Name].(*types.Func)
+		cs := callers[fn]
+		if fn == nil || len(cs) == 0 {
+			return false
+		}
+		for _, c := range cs {
+			if !onBehalf(c, seen) {
+				return false
+			}
+		}
+		return true
+	}
+	n := 0
+	for fd, sites := range writers {
+		n += len(sites)
+		if !onBehalf(fd, map[*ast.FuncDecl]bool{}) {
+			bad = append(bad, strings.Join(sites, ", ")+" in "+funcKey(pkg, fd))
+		}
+	}
+	sort.Strings(bad)
+	if n == 0 {
+		r.Fail("who/writes", key, "-", "no write found (vacuous)")
+	} else if len(bad) > 0 {
+		r.Fail("who/writes", key, "-", "written by a function that is not (only) reached from the tabled operations, to which the wake-up obligations are attached: "+strings.Join(bad, "; "))
+	} else {
+		r.Pass("who/writes", key, "-", fmt.Sprintf("%d write(s), all in the operations or in unexported helpers only they call", n))
 	}
 }
